@@ -203,6 +203,15 @@ func runC14(r *rt.Run, tier string) {
 		if mode == 2 && !lz {
 			// EIO on a byte range inside one of the three members
 			m := []*arMember{p.BinMember, p.CtlMember, p.DataMember}[t.Weighted([]int{1, 3, 4}, "fault.member")]
+			if len(p.Members) > 3 && t.Bool(1, 3, "fault.extramember") {
+				// an extra member (which Load does not need for anything but the index)
+				for _, x := range p.Members {
+					if x != p.BinMember && x != p.CtlMember && x != p.DataMember {
+						m = x
+					}
+				}
+				r.Probe("fault-on-extra-member")
+			}
 			if len(m.Data) > 0 && t.Bool(3, 4, "fault.indata") {
 				badLo = m.DataOff + t.Draw(len(m.Data), "fault.off")
 			} else {
@@ -236,6 +245,13 @@ func runC14(r *rt.Run, tier string) {
 			}
 			if d := controlDiff(&o.d.Control, &p.Ctl.Model); d != "" {
 				r.Violate("C14/control-mismatch", fieldOf(d)+"/eio", "[%s] load succeeded over a failing disk range but %s", key, d)
+			}
+			// the member index is built completely at load time: a successful load lists every member
+			for _, x := range p.Members {
+				if o.d.ArContent[x.Name] == nil {
+					r.Violate("C14/member-index", "eio/member-missing", "[%s] load succeeded over a failing disk range but the index lacks member %q (I/O error taken for the end of the archive?)", key, x.Name)
+					break
+				}
 			}
 			if d := dataDiff(o.files, p.Data.Files, o.ferr != nil); d != "" {
 				r.Violate("C14/payload-mismatch", key+"/eio", "%s (tar error: %v)", d, o.ferr)
@@ -312,5 +328,5 @@ func init() {
 		},
 		Assumptions: []string{"kjk/lzma decodes in its own goroutine: for packages with an lzma member the disk runs in quiet mode (no trace events, no EIO) so that the trace stays deterministic", "tar and gzip writers of the Go stdlib and the zstd/lzma encoders of the third-party modules are trusted to produce valid payloads"},
 	})
-	propProbes["C14"] = []string{"loads-interleaved", "via-LoadFile", "loaded-repeatedly", "extra-underscore-member"}
+	propProbes["C14"] = []string{"fault-on-extra-member", "loads-interleaved", "via-LoadFile", "loaded-repeatedly", "extra-underscore-member"}
 }
